@@ -209,8 +209,12 @@ func parseThread(stmts []ast.Stmt) *thread {
 	pending := map[string]string{}
 	for _, s := range stmts {
 		if w := chansOfWait(s); w != nil {
+			// the first wait on a channel decides: once it has been passed the channel is closed and a
+			// later receive from it in the same block cannot block any more
 			for c, k := range w {
-				pending[c] = k
+				if _, seen := pending[c]; !seen {
+					pending[c] = k
+				}
 			}
 			continue
 		}
